@@ -43,14 +43,7 @@ class World:
             meths: dict[str, ast.FunctionDef] = dict(extra or {})
             meths.update(m.methods(cls))
             props = {k for k, f in meths.items() if any(core.dotted(d) == "property" for d in f.decorator_list)}
-            consts: dict[str, Any] = {}
-            for st in m.tree.body:
-                if isinstance(st, ast.ImportFrom) and st.module == "pendulum.constants":
-                    for a in st.names:
-                        try:
-                            consts[a.asname or a.name] = core.const("constants", a.name)
-                        except Exception:       # noqa: BLE001
-                            pass
+            consts = minieval.module_consts(m)
             funcs = {st.name: st for st in m.top() if isinstance(st, ast.FunctionDef)}
             fields = {}
             for st in m.cls(cls).body:
@@ -67,7 +60,7 @@ class World:
             import math
             hm = core.pmod("helpers")
             hfuncs = {st.name: st for st in hm.top() if isinstance(st, ast.FunctionDef)}
-            hglob = {"date": _dt.date, "datetime": _dt.datetime, "timedelta": _dt.timedelta, "copysign": math.copysign,
+            hglob = {**minieval.module_consts(hm), "date": _dt.date, "datetime": _dt.datetime, "timedelta": _dt.timedelta, "copysign": math.copysign,
                      "is_leap": lambda y: y % 4 == 0 and (y % 100 != 0 or y % 400 == 0), "DAYS_PER_MONTHS": core.const("constants", "DAYS_PER_MONTHS"),
                      "RuntimeError": ValueError, "ValueError": ValueError}
             self._add_duration = (hfuncs["add_duration"], {**hfuncs, "$globals": hglob})
@@ -258,14 +251,7 @@ class TimeWorld:
         self.ctor = ClassStub(_new=self._construct, _isa=lambda v: isinstance(v, Obj) and "_tod" in vars(v))
         dm = core.pmod("datetime")
         self.dtw = World(dm, "DateTime", extra=core.pmod("date").methods("Date"), base_offset=_dt.timedelta(0))
-        consts: dict[str, Any] = {}
-        for st in m.tree.body:
-            if isinstance(st, ast.ImportFrom) and st.module == "pendulum.constants":
-                for a in st.names:
-                    try:
-                        consts[a.asname or a.name] = core.const("constants", a.name)
-                    except Exception:       # noqa: BLE001
-                        pass
+        consts = minieval.module_consts(m)
 
         def dur(kind):
             def mk(*a, **k):
